@@ -206,6 +206,13 @@ def make_check():
         else:
             ref = state["ref"]
             op = info["op"]
+            fails.extend(G.check_rejected(ex, info))
+            if info.get("target") is not None and info["target"] is not root:
+                # a call on another sequence (the second tree the case keeps alive, or a member that is itself a
+                # sequence): the list at the root received NO operation — whatever the call did or rejected, with
+                # members of the root as arguments or not, the root still equals the reference (state clauses below)
+                before_pairs = list(ref.items)
+                op = None
             if op is not None and "skip" not in (info["out"] if isinstance(info["out"], dict) else {}):
                 name = op["op"]
                 raised = info["raised"]
@@ -234,6 +241,15 @@ def make_check():
                         items.append(args[0])
                     elif name in ("extend", "iadd") and args is not None:
                         items.extend(args)
+                    elif name in ("insert", "setitem") and "ix" in op:
+                        # an index that is no integer: a Python list raises TypeError and stays as it is
+                        try:
+                            if name == "insert":
+                                items.insert(G.bad_index(op), args[0] if args else None)
+                            else:
+                                items[G.bad_index(op)] = args[0] if args else None
+                        except TypeError:
+                            exp_exc = "TypeError"
                     elif name == "insert" and args:
                         items.insert(op["i"], args[0])
                     elif name == "setitem" and args:
@@ -256,6 +272,9 @@ def make_check():
                             items.sort(key=lambda p: p[1], reverse=bool(op["rev"]))
                         elif op.get("key") == "ulen":
                             items.sort(key=lambda p: len(p[1]), reverse=bool(op["rev"]))
+                        elif op.get("key") == "raise":
+                            if len(items) >= 2:
+                                exp_exc = "KeyRaises"        # the key function fails on its second call: nothing moves
                         elif op.get("key") in ("len", "field"):
                             if any(p.extra is None or p.extra.get(op["key"]) is None for p in items):
                                 exp_exc = "KeyRaises"        # the key function raises on some member: so must sort()
@@ -383,7 +402,7 @@ def make_check():
                     if sorted(repr(G.vj(v)) for v, _ in now_items) != sorted(repr(G.vj(v)) for v, _ in before_pairs):
                         fail("keyless-sort-rearranges", G.vj([v for v, _ in before_pairs]), G.vj([v for v, _ in now_items]))
                     ref.items = now_items
-                elif name == "imul_bad":
+                elif name == "imul_bad" or (name in ("insert", "setitem") and "ix" in op):
                     if rname != exp_exc:
                         fail("raises-like-list", exp_exc, rname)
                 elif name == "sort" and exp_exc == "KeyRaises":
@@ -445,6 +464,13 @@ def make_check():
             fail("members-typed", root.member_schema.__name__, "a raw value is stored as a member")
             return fails
         got = [m.value for m in root]
+        if ex.taint and any(id(m) in ex.taint for m in root):
+            # ALIASING (outside the quantifier, see `assumptions`): a member of the root is listed by a second
+            # container (or twice by the root) because a SUCCESSFUL call was handed a live member; a later in-place
+            # set through the other holder changes it here too, which no list of values can follow.  The reference
+            # is resynchronised while that lasts; typing, length and .value are still checked.  Rejected calls never
+            # get here: they must change nothing (rejected-changes-nothing).
+            ref.items = [_item(m) for m in root]
         if got != ref.values():
             fail("members-equal-list", G.vj(ref.values()), G.vj(got))
             ref.items = [_item(m) for m in root]     # resynchronise: report each divergence once
@@ -468,6 +494,8 @@ def make_check():
                 break
         if kind == "list":
             for i, m in enumerate(root):
+                if id(m) in ex.taint:
+                    continue        # aliased: its parent pointer designates the holder it was handed to last
                 slot = m.parent
                 nm = getattr(slot, "name", None)
                 if nm != str(i):
@@ -558,10 +586,13 @@ def _op(s):
     return {"t": 0, "s": s}
 
 
+FAILURE_PATH_SHARE = 0.25
+
+
 class C09(Property):
     id = "C09"
     title = "Sequence elements behave as Python lists of member elements"
-    proof_module = "Proofs.C09All"
+    proof_module = "Proofs.C09Rejected"
     theorems = [
         "Flatland.C09.Proofs.step_refines",
         "Flatland.C09.Proofs.run_refines",
@@ -573,6 +604,8 @@ class C09(Property):
         "Flatland.C09.Proofs.members_typed",
         "Flatland.C09.Proofs.items_eq_members",
         "Flatland.C09.Proofs.positional_step",
+        "Flatland.C09.Proofs.rejected_call_keeps_members",
+        "Flatland.C08.Proofs.rejected_seq_unchanged",
         "Flatland.Tree.setNode_indep",
         "Flatland.Tree.fromDefaults_indep",
         "Flatland.Tree.wrap_plain_ok",
@@ -606,7 +639,7 @@ class C09(Property):
                   "MultiValue) needs a non-MultiValue member schema whose re-fed values are accepted and NO MultiValue "
                   "nested inside a member (ImulDeep/noMulti: a MultiValue shows as (value,u) by its first member only, so "
                   "the reference list does not determine its copies) — automatic for Integer/String (imul_guard_scalar, "
-                  "imulDeep_scalar); with a MultiValue inside, *= is checked by correspondence and the value oracle only. positional_step — every call, every member schema. REFUTED reading: value-only "
+                  "imulDeep_scalar); with a MultiValue inside, *= is checked by correspondence and the value oracle only. positional_step — every call, every member schema. rejected_call_keeps_members (round h8) — a call on a rejection route (seqAtomic: all but extend/+=/*=/set/set_default, in-place `lst[i] = plain` with a valid index, key-less sort) that raises leaves members, slot names and parents exactly as they were, as a Python list is unchanged after IndexError/TypeError/ValueError; on the code: oracle clause rejected-changes-nothing (incl. non-integer indexes, failing sort keys, live members of a second sequence as arguments; KF-C09-d = KF-C08-b on the unchanged library). REFUTED reading: value-only "
                   "(C09_Full, KF-C09-a). ORACLE ONLY: set_flat/from_flat (values predicted for the simple key shapes only, "
                   "typing and positional naming always), set(<iterable containing Elements>) (KF-C09-c), *= with a "
                   "non-integer count (TypeError), the flags returned by set(list), model paths answering `unsupported` (= "
@@ -630,7 +663,12 @@ class C09(Property):
         "`*=` (Sequence.__imul__, commits 33a67e3 / 24425c6: fresh members from _replica_value(member); non-integer "
         "count raises TypeError) is modelled and compared, MultiValue and nested sequence members included; "
         "`+` and `*` return plain lists and are not element operations",
-        "re-inserting an element that is already a member (`l.append(l[0])`) is aliasing, outside the quantifier",
+        "re-inserting an element that is already a member (`l.append(l[0])`) is aliasing, outside the quantifier: since round "
+        "h8 such calls ARE generated (25 % of the histories, oracle only; live members of the root or of a second sequence of "
+        "the same class kept alive by the case). A REJECTED call must change nothing (members, parents, slot names of both "
+        "sequences) and raise what a Python list raises; after a SUCCESSFUL one the call itself is checked against the "
+        "reference (the element is where a list would have it), and while a member of the root is listed by two holders the "
+        "reference is resynchronised at every step and the positional clauses skip that member",
         "Element arguments are fresh or detached elements of the member schema (no aliasing)",
         "MultiValue.value is the first member's value (documented), the list clause is checked on iteration",
     ]
@@ -640,6 +678,7 @@ class C09(Property):
             "are plain values (valid, unadaptable, None), fresh Elements, or Elements detached earlier (pool); "
             "Cases the Lean model does not cover (set_flat/from_flat, model paths answering unsupported) are marked oracle-only before the run and are not counted as validated traces (tag model=oracle-only). "
             "Element arguments are read (root/path/parents/fq_name) before they are handed over in half of the cases; 'observe' steps only read. "
+            "25 % of the histories (tag fp:case, oracle only) exercise failure / recovery paths: a second sequence of the same class kept alive, calls aimed at it, live members as arguments, item assignment and insert with out-of-range and NON-INTEGER indexes ('1', None, 1.5), extended-slice size mismatches, items the member schema rejects, a sort key that raises on its second call, followed by calls that succeed. "
             "non-trivial = at least 3 calls changed the sequence or raised")
     quick_n = 40000
     thorough_n = 300000
@@ -679,6 +718,23 @@ class C09(Property):
         # open KF-C09-c: set() of an iterable that contains a ready-made Element
         out.append({"schema": _seq("list", I, name="l"), "init": {"route": "ctor", "value": None}, "nomodel": True,
                     "ops": [_op({"op": "set_mixed", "as": [{"new": 3}, {"v": 4}]})]})
+        # failure paths (round h8, oracle only): rejected item assignment / insert with a live member of a second List
+        # (seeded C08-setitem-reparents-before-index-check), non-integer indexes, a failing sort key, then success
+        lv = lambda tree, k: {"live": {"tree": tree, "k": k, "where": "any"}}
+        out.append({"schema": _seq("list", I, name="l"), "nomodel": True, "aux": [{"value": {"l": [10, 20]}}],
+                    "init": {"route": "ctor_value", "value": {"l": [1, 2, 3]}},
+                    "ops": [{"t": 0, "tt": 1, "s": {"op": "setitem", "i": 7, "a": lv(0, 2)}},
+                            {"t": 0, "tt": 1, "s": {"op": "setitem", "i": 0, "ix": "str", "a": lv(0, 1)}},
+                            _op({"op": "setitem", "i": 1, "ix": "none", "a": {"v": 5}}),
+                            _op({"op": "insert", "i": 1, "ix": "float", "a": {"new": 5}}),
+                            _op({"op": "sort", "key": "raise", "rev": False}),
+                            _op({"op": "setitem", "i": -4, "a": lv(1, 0)}),
+                            _op({"op": "append", "a": {"v": 4}}), _op({"op": "getitem", "i": 2})]})
+        # open KF-C09-d (= KF-C08-b): a rejected insert re-parents the live member of the other List
+        out.append({"schema": _seq("list", I, name="l"), "nomodel": True, "aux": [{"value": {"l": [10]}}],
+                    "init": {"route": "ctor_value", "value": {"l": [1, 2, 3]}},
+                    "ops": [{"t": 0, "tt": 1, "s": {"op": "insert", "i": 0, "ix": "str", "a": lv(0, 2)}},
+                            _op({"op": "append", "a": {"v": 4}})]})
         # past disagreements / edge shapes
         out.append({"schema": _seq("list", I), "init": {"route": "ctor_value", "value": {"l": [1, 2, 3, 4, 5]}},
                     "ops": [_op({"op": "setslice", "sl": [None, None, 2], "as": [{"v": 7}]}),
@@ -736,6 +792,10 @@ class C09(Property):
             case = {"schema": schema, "init": init, "ops": ops}
             if G.has_flat(case):
                 case["nomodel"] = True
+            if rng.random() < FAILURE_PATH_SHARE and not mixed:
+                # failure / recovery paths (oracle only): a second sequence of the same class kept alive, live members
+                # as arguments, rejected calls (out-of-range / non-integer indexes, size mismatches, failing sort keys)
+                G.inject_failure_paths(rng, case, schema, any_class=False, t_max=0)
             yield case
 
     # -- running
@@ -761,6 +821,8 @@ class C09(Property):
         return super().compare(impl_obs, model_obs)
 
     def classify(self, case, failure):
+        if G.rejected_placement_reparents(case, failure):
+            return "KF-C09-d"
         if set_feeds_elements_to_set(case, failure):
             return "KF-C09-c"
         if eq_search_with_unadapted(case, failure):
@@ -784,7 +846,8 @@ class C09(Property):
             return ["view-raises"]
         t = ["model=" + ("oracle-only" if case.get("nomodel") else "compared"), "kind=" + case["schema"]["k"], "member=" + case["schema"]["subs"][0]["k"], "route=" + case["init"]["route"],
              "ops=%d" % len(case["ops"])]
-        for o, st in zip(case["ops"], obs["steps"][1:]):
+        fps = obs.get("_fp") or [None] * len(obs["steps"])
+        for idx, (o, st) in enumerate(zip(case["ops"], obs["steps"][1:]), 1):
             out = st["out"]
             name = o["s"]["op"]
             if isinstance(out, dict) and "exc" in out:
@@ -796,6 +859,19 @@ class C09(Property):
             a = o["s"].get("a") or {}
             if "new" in a or "pool" in a:
                 t.append("arg:element")
+            fp = fps[idx]
+            if fp:
+                if fp["raised"]:
+                    t.append("fp:rejected:%s" % fp["route"] if fp["route"] else "fp:raised-after-effects")
+                    t.append(("fp:live-arg:" if fp["live"] else "fp:no-live-arg:") + ("rejected" if fp["route"] else "raised-after-effects"))
+                elif fp["live"]:
+                    t.append("fp:live-arg:accepted")
+                if fp["tree"]:
+                    t.append("fp:target-in-second-tree")
+                if fp["taint"]:
+                    t.append("fp:aliased-elements-present")
+        if G.has_failure_paths(case):
+            t.append("fp:case")
         t.append("maxlen=%d" % min(12, max(s["view"]["len"] for s in obs["steps"])))
         return sorted(set(t))
 
